@@ -878,7 +878,11 @@ coap_ws_close(coap_session_t *session) {
   }
   if (session->ws && session->ws->up) {
 #if !defined(WITH_LWIP) && !defined(WITH_CONTIKI)
-    int count;
+    /*
+     * Only the invocation that sends the Close waits for the peer's Close:
+     * coap_ws_read() called below can end up in coap_ws_close() again.
+     */
+    int count = session->ws->sent_close ? 0 : 5;
 #endif /* ! WITH_LWIP && ! WITH_CONTIKI */
 
     if (!session->ws->sent_close) {
@@ -914,7 +918,6 @@ coap_ws_close(coap_session_t *session) {
       }
     }
 #if !defined(WITH_LWIP) && !defined(WITH_CONTIKI)
-    count = 5;
     while (!session->ws->recv_close && count > 0 && coap_netif_available(session)) {
       uint8_t buf[100];
       fd_set readfds;
